@@ -17,6 +17,7 @@
 
 #include <ipr/impl>
 #include <ipr/io>
+#include <ipr/traversal>
 
 #include "envctl.hpp"
 #include "report.hpp"
@@ -247,6 +248,19 @@ namespace {
            auto* g = w.lex.make_general_substitution();
            g->subst(*p0, w.lit(0)).subst(*p1, w.lit(1)).subst(*p0, w.lit(1));
            (void) w.lex.make_instantiation(w.lit(0), *g); } },
+      { "inspect-units", [](World& w) {
+           // read what every unit of this Lexicon refers to: all of it must be storage owned by this (live) Lexicon or constant
+           auto look = [&](const ipr::Translation_unit& u) {
+              const ipr::Namespace& ns = u.global_namespace();
+              auto* id = ipr::util::view<ipr::Identifier>(ns.name());
+              if (id == nullptr or id->string().characters().size() != 0 or &ns.type() != &w.lex.namespace_type()) rep.count("odd_global_namespace");
+              if (id != &w.lex.get_identifier(u8"")) rep.count("global_namespace_named_by_foreign_identifier");
+              (void) ns.region().bindings().size();
+              (void) u.imported_modules().size();
+           };
+           look(*w.tu);
+           if (w.module) { look(w.module->iface); for (auto& mu : static_cast<const ipr::Module&>(*w.module).implementation_units()) look(mu); }
+        } },
       { "print", [](World& w) {
            std::ostringstream os;
            ipr::Printer pp{ w.lex, os };
